@@ -265,7 +265,7 @@ def prog (n : String) : Option (List Stmt × Kind) :=
   | _ => none
 
 def showExc : Exc → String
-  | .wte => "wte" | .user => "user" | .base => "base" | .closed => "closed" | .empty => "empty" | .nothing => "nothing"
+  | .wte => "wte" | .user => "user" | .base => "base" | .closed => "closed" | .empty => "empty" | .os => "other" | .nothing => "nothing"
 
 def showMsg : Msg → String
   | .info => "info" | .final none _ => "ok" | .final (some e) _ => "err:" ++ showExc e
@@ -283,12 +283,14 @@ def run (args : List String) : String :=
     | some (pr, kind) =>
       let target := if t == "u" then Target.raisesUser else if t == "b" then Target.raisesBase else Target.returns
       let inputs := if inp == "-" then [] else inp.toList.map fun c => if c == 'i' then Input.item else if c == 'r' then Input.release else Input.eof
-      let async := if a == "k" then Async.kill else Async.raiseWte (a == "c")
+      let async := if a == "k" then Async.kill
+        else if a.startsWith "D" then Async.deferred ((a.drop 1).toNat?.getD 0)
+        else Async.raiseWte (a == "c")
       let (st, out) := PwVerif.Py.run pr { target := target, targetNone := tn == "1", assigns := opt.contains "assign" } inputs k.toNat? async
       let o := observe kind st
       let he := match o.hasError with | none => "None" | some true => "True" | some false => "False"
       let er := match o.error with | none => "None" | some e => showExc e
-      "out=" ++ showOut out ++ " obs=" ++ he ++ "/" ++ er ++ " ustate=" ++ toString (parentState kind st) ++ " trace=" ++ ",".intercalate (st.trace.map toString)
+      "out=" ++ showOut out ++ " obs=" ++ he ++ "/" ++ er ++ " ustate=" ++ toString (parentState kind st) ++ " raisedAt=" ++ (match st.raisedAt with | none => "-" | some l => toString l) ++ " trace=" ++ ",".intercalate (st.trace.map toString)
         ++ " comms=" ++ ",".intercalate (st.comms.map showMsg) ++ " results=" ++ ",".intercalate (st.results.map showMsg)
   | _ => "bad-op"
 end RunIO
